@@ -7,7 +7,8 @@
 (* lifetime L (ms).  Contract: half the lifetime <= delay < lifetime       *)
 (* (Part 4 5.5.2.1 recommends 75 %).  The code computes                    *)
 (*   time.Second * Duration(L.Seconds() * 0.75)   = whole seconds          *)
-(* (Dev_RenewFloorSeconds); the contract computes 0.75 L in milliseconds.  *)
+(* (Dev_RenewFloorSeconds; repaired in 2282172, kept as a demo); the       *)
+(* contract computes 0.75 L in milliseconds.                               *)
 (* One TLC state per lifetime = one row for the harness, which reads the   *)
 (* delay the real client computed from the hook renew.sched.               *)
 (*                                                                         *)
